@@ -21,7 +21,8 @@ FOREIGN = [
     b"- item", b"+1", b"-- ", b"@x", b"a:b:c", b"x.rs", b"x.rs:", b"deadbeef (not blame",
     b"{not json", b'{"type":"x"}', b"-", b"+", b"\\", b"Merge: 1111111 2222222",
     b"\x1b[31mred\x1b[m text", b"\x1b[1;32munterminated bold green", b"plain \x1b[38;5;200mpink\x1b[0m",
-    b"a\tb\tc", b"\ttab first", b"crlf line\r", b"\x1b[31mcrlf coloured\x1b[m\r",
+    b"col \x1b[31mred\r\x1b[m", b"\x1b[1mbold\r\x1b[m\x1b[K", b"    \x1b[31mindented coloured\x1b[m body",
+    b" \x1b[32mone\x1b[m blank then colour", b"a\tb\tc", b"\ttab first", b"crlf line\r", b"\x1b[31mcrlf coloured\x1b[m\r",
     b"caf\xc3\xa9 \xe6\xbc\xa2", b"invalid \xff\xfe bytes", b"trunc \xc3", LONG,
     b"\x1b[33m" + LONG + b"\x1b[m", b"Notes:", b"rename", b"index", b"Binary", b"Submodule",
     b"commits", b"diffstat", b"# comment", b"* bullet", b"> quote", b"1 file changed",
@@ -157,6 +158,9 @@ DIMS = [
     Dim("width", [("40", {}), ("5", {"width": "5"}), ("variable", {"width": "variable"})]),
     Dim("syntax", [("none", {}), ("on", {"syntax-theme": "GitHub"})]),
     Dim("line-buffer-size", [("32", {}), ("0", {"line-buffer-size": "0"})]),
+    # --relative-paths rewrites diffstat lines only; indented text that is not a diffstat line passes through
+    Dim("relative", [("off", {}), ("on,GIT_PREFIX", {"relative-paths": True, "_git_prefix": "src/"}),
+                     ("on", {"relative-paths": True})]),
 ]
 
 SECTION_KINDS = [("modified", "ctx"), ("modified", "minusplus"), ("mode", "ctx"), ("binary", "ctx"),
@@ -174,8 +178,9 @@ def run_task(task):
             opts[kk] = v
     args = build_args(base_opts(opts))
     drv = explore.get_driver(caller=caller)
+    env = {"git_prefix": ocfg["git_prefix"], "cwd": "/work/repo"} if ocfg.get("git_prefix") else None
     try:
-        cid = drv.mkconfig(args)
+        cid = drv.mkconfig(args, env)
     except explore.Rejected as e:
         return {"label": label, "spec": ("foreign",), "rejected": str(e)}
     prob = Foreign(ocfg, k, alphabet, kinds)
@@ -195,8 +200,9 @@ ASSUMPTIONS = [
     "placed before the first diff, after a commit line, and after a file section + commit line"
     % len(FOREIGN),
     "not demanded: pass-through of text that follows a hunk without an intervening commit/diff line "
-    "(delta documents that it keeps treating lines as hunk content); lines starting with a blank "
-    "under --relative-paths (diffstat rewriting); hyperlinks on raw lines (need a terminal)",
+    "(delta documents that it keeps treating lines as hunk content); diffstat-shaped lines "
+    "(` path | N +-`) under --relative-paths (an explicit request to rewrite them; none in the alphabet); "
+    "hyperlinks on raw lines (need a terminal)",
     "grep/blame callers only with lines outside the documented grep/blame shapes",
 ]
 
